@@ -157,14 +157,16 @@ def run(report, tier):
     backends = ["f64", "dec"]
     import concurrent.futures as cf
     from engine import common
-    frontend.dump_repo_parallel(backends)
+    keys = E.dump_worlds(backends, astro=True, fixture=True)
+    from engine.replay import gen as rgen
+    rgen.EXTRA_SRC = synthdefs.SYNTH_RS
     pool = mpool.Pool(jobs=max(2, common.ncpu() - 8))
     try:
         with cf.ThreadPoolExecutor(max_workers=1) as ex:
             fut = ex.submit(kani_part, report, tier)
-            desc = {be: pool.describe(be) for be in backends}
-            tasks = [(be, q) for be in backends for q in desc[be]["qty"]]
-            report.bounds["e2_exactness"] = "symbolic (uninterpreted) amounts a, k: every unit of every quantity type in the MIR of both back-ends (with and without reference unit, AmountT)"
+            desc = E.describe_worlds(pool, keys)
+            tasks = [(keys[label], q) for label in keys for q in desc[label]["qty"] if not (label.startswith("fix") and q not in desc[label].get("own", []))]
+            report.bounds["e2_exactness"] = "symbolic (uninterpreted) amounts a, k: every unit of every quantity type in the MIR of both back-ends (with and without reference unit, AmountT), of the astronomical crate and of the synthetic fixture types (single-unit, without reference unit, 24 units)"
             cands = pool.run(report, task, tasks)
             for c in cands:
                 c["units"] = c["units"] + c["units"]
